@@ -245,14 +245,14 @@ func vStubParseIndirectXRef(p *Parser) (*IndirectObject, error) { return vXRefSt
 //
 //symgo:harness prop=C01 kernel=K4-xref-stream-sections noreplay=1
 //symgo:redirect (*github.com/tsawler/tabula/core.Parser).ParseIndirectObject vStubParseIndirectXRef
-//symgo:desc /W [1 1 1] or [1 2 0] (enumerated); /Index with 1..3 subsections, first object numbers symbolic small integers in increasing order, counts 1..2 (enumerated); all entry bytes symbolic with type in 0..2: every listed object number maps to the entry decoded from its own position in the data and no other number is defined; the object parser is cut (harness-built stream object)
+//symgo:desc /W [1 1 1] or [1 2 0] (enumerated); /Index with 1..2 (quick) / 1..3 (thorough) subsections, first object numbers symbolic small integers in increasing order, counts 1..2 (enumerated); all entry bytes symbolic with type in 0..2: every listed object number maps to the entry decoded from its own position in the data and no other number is defined; the object parser is cut (harness-built stream object)
 func H_C01_xref_stream_subsections() {
 	w := []int{1, 1, 1}
 	if vAnyIntIn(0, 1) == 1 {
 		w = []int{1, 2, 0}
 	}
 	width := w[0] + w[1] + w[2]
-	nsec := vAnyIntIn(1, 3)
+	nsec := vAnyIntIn(1, 2+vTier())
 	var index Array
 	type ent struct {
 		num        int
